@@ -21,6 +21,7 @@ static void check_case (const Case &c, Outcome &o) {
 static void case_fn (CS &cs, Outcome &o) {
   GenCfg base;
   base.min_funcs = 2;
+  base.force_calls = true;
   base.max_funcs = 5;
   base.max_blocks = 5;
   base.multi_module = true;
